@@ -154,6 +154,10 @@ func (w *world) slowDrainThenOps(p *slowDrainPlan) {
 	r := w.r
 	r.Probe("drain")
 	r.Probe("slow-drain")
+	w.drains++
+	if w.drains > 1 {
+		r.Probe("drain-repeated-on-one-wheel")
+	}
 	sd := &slowDrain{w: w, plan: p, gate: make(chan struct{}), setAfter: map[int][]int{}, opsAfter: map[int][]string{}, atTick: w.T}
 	for _, b := range p.beh {
 		if b.sleep > sd.maxSleep {
@@ -162,8 +166,12 @@ func (w *world) slowDrainThenOps(p *slowDrainPlan) {
 	}
 	fn := func(k, v any) {
 		r.Yield()
-		key, val := k.(int), v.(int)
-		w.drained = append(w.drained, fire{key, val})
+		key, val, known := w.decode(k, v)
+		if !known {
+			w.fail("drain-unknown-key", "Drain delivered (%#v, %#v): no such key or value was ever handed to the wheel", k, v)
+			return
+		}
+		w.drained = append(w.drained, fire{key: key, val: val})
 		r.Ev("drained", int64(key), int64(val))
 		var b dbeh
 		if key >= 0 && key < len(p.beh) {
@@ -180,7 +188,7 @@ func (w *world) slowDrainThenOps(p *slowDrainPlan) {
 		if b.panics {
 			r.Probe("drain-callback-panics")
 			w.drainPanicked = true
-			panic(fmt.Sprintf("c12: user code of the drain callback panics (k%d)", key))
+			doPanic(w.pkDrain, fmt.Sprintf("c12: user code of the drain callback panics (k%d)", key))
 		}
 	}
 	if p.pre != nil {
